@@ -25,8 +25,8 @@ PROPS = {
         level_text="Proved for every N and every behaviour of at most F keys: agreement follows from quorum certificates and one-signature-per-height (Properties/C01.v, quorum intersection by pigeonhole). The node-level premises are proved only in part (counting clause of the certificate, commit gate); the unconditional statement is false of the code (known findings D1f/D1fa: forks replayed on the real library).",
         level_note="partial: composition theorem proved; premises 'every counted signature verifies' and 'one commit per height' are exercised by monitors on the real code, not proved"),
     "C02": dict(family="node", level="proof", title="Decision certificate",
-        level_text="Proved for every reachable model state and script: the block (pre-block) is handed over only while M commits (pre-commits) of the current view are held, with all transactions, at most once per height. Refuted with a model-level witness that is the real library's own history: that each counted signature verifies against that block (D1, D1p, D2) and the 'is the proposal / extends the tip' clauses (exercised).",
-        level_note="partial: counting and at-most-once clauses proved on the whole model; signature validity is a known finding; remaining clauses exercised by monitors + correspondence"),
+        level_text="Proved for every reachable model state and script: the block (pre-block) is handed over only while M commits (pre-commits) of the current view are held, with all transactions, at most once per height; the block handed over is the node's header, whose timestamp, nonce and transaction list (in order) are those of the PrepareRequest of the current view held in the slot of the view's primary (height - view mod N), and whose index and previous hash are the context's values read from the application at the height's initialisation (Node/P02.v, invariant Inv2). Refuted with a model-level witness that is the real library's own history: that each counted signature verifies against that block (D1, D1p, D2, D2n).",
+        level_note="partial: counting, at-most-once and block-is-the-proposal clauses proved on the whole model; signature validity of stored early commits is a known finding (refutation theorem with the library's own history as witness)"),
     "C03": dict(family="node", level="other", title="Non-equivocation and commit lock",
         level_text="Proved for every state with the own Commit/PreCommit slot filled (non-watch-only validator): a retransmitted Commit/PreCommit is the stored one (nothing signed again); a timeout, a peer's ChangeView and a transaction leave the view untouched and broadcast no ChangeView. Not proved: the lock against a PrepareRequest arriving after the commit (needs an authenticity assumption the library does not check) and the history-level clauses (one proposal/response per view, one commit per height, view monotonicity, recovery contents): decided by monitors on every node's outgoing history on the real library.",
         level_note="partial: lock proved at three of its four sites, identical retransmission proved; history clauses by exploration with monitors; model-code correspondence"),
